@@ -150,7 +150,10 @@ func (c *Criteria) Add(criterion *Criterion) Criteria {
 			panic(fmt.Errorf("cannot add criterion '%v' - already exists in criteria: %v", *criterion, *c))
 		}
 	}
-	return append(*c, *criterion)
+	// never append in place: the slice may be the caller's, with spare capacity shared by other holders
+	result := make(Criteria, len(*c), len(*c)+1)
+	copy(result, *c)
+	return append(result, *criterion)
 }
 
 type WeightedCriterion struct {
